@@ -293,8 +293,17 @@ func (env *Env) binary(e *Expr) SV {
 		}
 	}()
 	bt := types.Type(types.Typ[types.Bool])
-	if (a.T == nil || b.T == nil) && op != "==" && op != "!=" {
-		return env.fail("callee-local call record used outside an equality")
+	if a.T == nil || b.T == nil {
+		switch op {
+		case "==", "!=":
+		case "<", "<=", ">", ">=":
+			// an unknown record (no such call on this path, or a callee's own): unconstrained
+			return SV{T: env.x.freshVar("norecord", SBool), Ty: bt}
+		case "&&", "||", "==>":
+			return env.fail("unknown call record used as a boolean")
+		default:
+			return SV{T: nil} // arithmetic over an unknown record is unknown
+		}
 	}
 	switch op {
 	case "&&":
@@ -622,6 +631,9 @@ func (env *Env) call(e *Expr) SV {
 		return SV{T: App("absi", SInt, a.T), Ty: a.Ty}
 	case "min", "max":
 		a, b := arg(0), arg(1)
+		if a.T == nil || b.T == nil {
+			return SV{T: nil}
+		}
 		a.T, b.T = coerce(a.T, b.T)
 		c := Le(a.T, b.T)
 		if e.Name == "max" {
@@ -678,6 +690,9 @@ func (env *Env) call(e *Expr) SV {
 			return env.fail("sumdw needs a typed slice")
 		}
 		return env.sumdw(sl, k.T, e.Args[2].Lit)
+	case "isext":
+		theU.DeclFunc("isext", SBool, SInt)
+		return SV{T: App("isext", SBool, arg(0).T), Ty: bt}
 	case "cancelled":
 		return SV{T: Select(st.heapArr(ghCancelled, heapSorts[ghCancelled]), arg(0).T), Ty: bt}
 	case "closed":
